@@ -4,6 +4,7 @@ import (
 	"encoding/json"
 	"fmt"
 	"sync"
+	"time"
 
 	"github.com/maypok86/otter/v2"
 
@@ -22,6 +23,7 @@ func Replay(col *core.Collector, data []byte, path string, times int) error {
 		Scenario  json.RawMessage `json:"scenario"`
 		Stress    json.RawMessage `json:"stress"`
 		CaseSeed  uint64          `json:"case_seed"`
+		Rounds    int             `json:"rounds"`
 	}
 	if err := json.Unmarshal(data, &head); err != nil {
 		return err
@@ -31,6 +33,27 @@ func Replay(col *core.Collector, data []byte, path string, times int) error {
 		if v != "" {
 			fmt.Println("reproduced:", v)
 			col.Violation(core.Violation{Property: prop, Signature: "replay:" + sigText(v), Detail: v, Replay: path})
+		}
+	}
+	if head.Engine == "conc" {
+		// the offline checker is deterministic: the recorded history of a linearizability trial is judged again first
+		var rec struct {
+			Trial   TrialCfg `json:"trial"`
+			History [][]Rec  `json:"history"`
+			Events  []Ev     `json:"events"`
+		}
+		if err := json.Unmarshal(data, &rec); err == nil && rec.Trial.Prop == "C02" && len(rec.History) > 0 {
+			t := &Trial{Cfg: rec.Trial, Recs: rec.History, evs: rec.Events, base: time.Now()}
+			t.evIdx.Store(int64(len(rec.Events)))
+			if rec.Trial.ExpiryTTL > 0 {
+				t.Clock = &phaseClock{}
+			}
+			lr := t.CheckLinearizable(map[int]linOut{}, 60*time.Second)
+			fmt.Printf("recorded history re-checked offline: %d keys ok, %d illegal, %d unknown\n", lr.Ok, lr.Illegal, lr.Unknown)
+			if lr.Illegal > 0 {
+				fmt.Println(lr.Witness)
+				report(rec.Trial.Prop, lr.Witness)
+			}
 		}
 	}
 	for i := 0; i < times && col.NumViolations() == 0; i++ {
@@ -107,6 +130,39 @@ func Replay(col *core.Collector, data []byte, path string, times int) error {
 			report("C03", v)
 			report("C06", ev)
 			report("C20", sv)
+		case "c14-full":
+			installDefaultExecutor()
+			v, t, _ := runC14Full(head.CaseSeed)
+			if t != nil {
+				t.Close()
+			}
+			report("C14", v)
+		case "c14-invall":
+			installDefaultExecutor()
+			v, t, _, _ := runC14InvAll(head.CaseSeed)
+			if t != nil {
+				t.Close()
+			}
+			report("C14", v)
+		case "c14-pairs":
+			installDefaultExecutor()
+			v, t, _ := runC14Pairs(head.CaseSeed, max(head.Rounds, 1000), i%2 == 1)
+			if t != nil {
+				t.Close()
+			}
+			report("C14", v)
+		case "c11-swap":
+			v, _ := runC11Swap(head.CaseSeed)
+			report("C11", v)
+		case "c11-fresh":
+			v, _ := runC11Fresh(head.CaseSeed)
+			report("C11", v)
+		case "c03-setter":
+			v, _, _ := runC03Setter(head.CaseSeed)
+			report("C03", v)
+		case "c03-iter":
+			v, _, _ := runC03Iter(head.CaseSeed)
+			report("C03", v)
 		case "table":
 			var cfg tableCfg
 			if err := json.Unmarshal(head.Trial, &cfg); err != nil {
